@@ -14,8 +14,11 @@ def install(reg):
 
     @H("Pool.close")
     def pool_close(I, a, k, n):
-        a[0].f["closed"] = B(True)
+        assumed(I, "pool.close() / pool.join() normally succeed but may raise (executor-style pools, interruption during shutdown)")
         I.path.event("pool.close", a[0])
+        if I.path.choose(2, "pool-shutdown-fails") == 1:
+            raise RaiseSig("PoolShutdownError", n)
+        a[0].f["closed"] = B(True)
         return NONE
 
     @H("Pool.join")
@@ -82,6 +85,15 @@ class PoolHandlerExit(Contract):
             p.prove(z3.BoolVal(len(closes) == 0), f"{q}:C19:no pool, nothing to close {tag}")
         p.prove(z3.BoolVal(isinstance(r, NoneV) or not I.path.branch(I.truth(r))), f"{q}:C19:exceptions are not swallowed by __exit__")
 
+    def post_raise(self, I, pre, sig):
+        if sig.exc != "PoolShutdownError":
+            return super().post_raise(I, pre, sig)
+        # the pool could not be shut down: the overrides must have been undone all the same
+        p, g = I.path, pre.ghost
+        inst = g["inst"]
+        p.prove(z3.BoolVal(inst.f["log_likelihood"] is g["L0"] and inst.f["log_prior"] is g["P0"]),
+                f"{self.qual}:C19:likelihood and prior are restored even when shutting the pool down raises")
+
 
 class AutoCheckpoint(Contract):
     qual = "aspire:Aspire.auto_checkpoint"
@@ -91,7 +103,7 @@ class AutoCheckpoint(Contract):
            "dictionary object with unchanged contents (nesting follows by induction)")
 
     def shapes(self):
-        return [{"prev": pv, "exc": e, "same_path": sp, "body": b} for pv in (0, 1) for e in (0, 1) for sp in (0, 1) for b in ("nothing", "marks-saved", "nested-inner")
+        return [{"prev": pv, "exc": e, "same_path": sp, "body": b} for pv in (0, 1) for e in (0, 1, 2) for sp in (0, 1) for b in ("nothing", "marks-saved", "nested-inner")
                 if not (pv == 0 and sp == 1)]
 
     def setup(self, I, shape):
@@ -120,7 +132,7 @@ class AutoCheckpoint(Contract):
                 # an inner context on another file that was entered and left correctly (induction hypothesis): attribute back to `cur`
                 pass
             if shape["exc"]:
-                raise RaiseSig("UserError", n)
+                raise RaiseSig("UserError" if shape["exc"] == 1 else "KeyboardInterrupt", n)     # 2: an interruption that is not an Exception
             return NONE
         I.yield_hook = on_yield
         return Pre(a, [path], {"every": IV(every), "save_config": B(sc), "save_flow": B(sf)}, ghost=g)
@@ -157,6 +169,6 @@ class AutoCheckpoint(Contract):
         self._restored(I, pre, "normal exit")
 
     def post_raise(self, I, pre, sig):
-        if sig.exc != "UserError" or not pre.ghost["shape"]["exc"]:
+        if sig.exc not in ("UserError", "KeyboardInterrupt") or not pre.ghost["shape"]["exc"]:
             return super().post_raise(I, pre, sig)
         self._restored(I, pre, "exception in the body")
